@@ -690,8 +690,8 @@ func (env *SpecEnv) evalCall(x *ast.CallExpr) Val {
 				full := funcFullName(fn)
 				con := vc.prog.Contracts[full]
 				sig := fn.Type().(*types.Signature)
-				if con == nil || !con.Pure || len(con.Ensures) != 0 || sig.Results().Len() != 1 {
-					env.errorf("spec call of %s: only pure functions without postconditions can be named in specs", full)
+				if con == nil || !con.Pure || sig.Results().Len() != 1 {
+					env.errorf("spec call of %s: only pure functions can be named in specs", full)
 					return intVal(Zero)
 				}
 				var as []*Term
@@ -713,7 +713,7 @@ func (env *SpecEnv) evalCall(x *ast.CallExpr) Val {
 			full := funcFullName(fn)
 			con := vc.prog.Contracts[full]
 			sig := fn.Type().(*types.Signature)
-			if con != nil && con.Pure && len(con.Ensures) == 0 && sig.Results().Len() == 1 {
+			if con != nil && con.Pure && sig.Results().Len() == 1 {
 				var as []*Term
 				for _, a := range x.Args {
 					as = append(as, vc.pureArgTerms(env.st, env.eval(a))...)
